@@ -334,6 +334,7 @@ func runConstrCase(o *Oracle, d json.RawMessage, oc *Outcome) {
 	s.VerifSetAnalyzeHook(nil)
 	if pb.Status == solver.Indet {
 		analysisMirror(o, oc, *analyses, entry)
+		trailPbReplay(o, oc, *analyses, entry)
 	}
 	truth := o.Sat(n, sem)
 	switch st {
@@ -504,5 +505,65 @@ func callerValuesKept(oc *Outcome, c *ConstrCase) {
 	}
 	if p2 := fmtProblem(solver.ParsePBConstrs(pc), true); p2 != p1 {
 		oc.Fail("spec", "caller-constraints-unchanged", "solver.ParsePBConstrs", "parsing the same values twice gives %q then %q", p1, p2)
+	}
+}
+
+// trailPbReplay: every sampled conflict state is a run of the abstract trail machine with
+// cardinality / PB antecedents (GS.TrailPb: step_preserves_invPb, reachable_analyze_sound_pb): the
+// trail replayed as decide / propagate / propagatePb / fact operations must be accepted (every
+// antecedent forced its literal when it was used) and end in a state on which the conflict is falsified.
+func trailPbReplay(o *Oracle, oc *Outcome, as []solver.VerifAnalysis, entry string) {
+	isClause := func(c *solver.PBConstr) bool {
+		if c.AtLeast != 1 {
+			return false
+		}
+		for _, w := range c.Weights {
+			if w != 1 {
+				return false
+			}
+		}
+		return true
+	}
+	lin := func(c *solver.PBConstr) string {
+		g := fmt.Sprint(c.AtLeast)
+		for i, l := range c.Lits {
+			w := 1
+			if c.Weights != nil {
+				w = c.Weights[i]
+			}
+			g += fmt.Sprintf(" %d %d", w, l)
+		}
+		return g
+	}
+	for i := range as {
+		if i >= 6 {
+			break
+		}
+		d := dedupTrail(&as[i])
+		var ops []string
+		for j, l := range d.Trail {
+			switch r := d.Reasons[j]; {
+			case r != nil && isClause(r):
+				ops = append(ops, fmt.Sprintf("2 %d %s", l, encInts(r.Lits)))
+			case r != nil:
+				ops = append(ops, fmt.Sprintf("7 %d %s", l, lin(r)))
+			case d.Levels[j] == 1 && d.Assumed[j]:
+				ops = append(ops, fmt.Sprintf("6 %d", l))
+			case d.Levels[j] == 1:
+				ops = append(ops, fmt.Sprintf("5 %d", l))
+			default:
+				ops = append(ops, fmt.Sprintf("1 %d", l))
+			}
+		}
+		q := fmt.Sprintf("trailpb_run | %s | %s", strings.Join(ops, " ; "), encInts(d.Conflict.Lits))
+		if !isClause(&d.Conflict) {
+			q = fmt.Sprintf("trailpb_run | %s | | %s", strings.Join(ops, " ; "), lin(&d.Conflict))
+		}
+		r := o.Ask(q)
+		oc.Corr++
+		if !strings.HasPrefix(r, fmt.Sprintf("state %d |", d.Lvl)) || !strings.Contains(r, "| inv 1 | falsified 1 ") {
+			oc.Fail("corr", "trail-machine", entry, "the solver state at conflict %d is not a run of the abstract trail machine GS.TrailPb ending in a falsified conflict: %s (query %s)", i, r, q)
+			return
+		}
 	}
 }
